@@ -121,6 +121,59 @@ void reify_ratio(const char *tag) {
     printf(",\"fn_equiv\":%d,\"fn_same_dim\":%d}\n", (int)au::are_units_quantity_equivalent(A{}, B{}), (int)au::has_same_dimension(A{}, B{}));
 }
 
+// ---- magnitudes (C11 / C16) ---------------------------------------------------------------------
+inline void print_i128(__int128 v) {
+    if (v == 0) { fputs("0", stdout); return; }
+    char buf[48]; int n = 0; bool neg = v < 0;
+    unsigned __int128 u = neg ? (unsigned __int128)(-(v + 1)) + 1 : (unsigned __int128)v;
+    while (u) { buf[n++] = (char)('0' + (int)(u % 10)); u /= 10; }
+    if (neg) fputc('-', stdout);
+    while (n) fputc(buf[--n], stdout);
+}
+template <typename T, bool F = std::is_floating_point<T>::value>
+struct PutVal { static void put(T v) { fputc('"', stdout); print_i128((__int128)v); fputc('"', stdout); } };
+template <typename T>
+struct PutVal<T, true> { static void put(T v) { printf("\"%La\"", (long double)v); } };
+
+template <typename T, typename M, bool Ok>
+struct GetVal { static void put() { printf("null"); } };
+template <typename T, typename M>
+struct GetVal<T, M, true> {
+    static void put() {
+        constexpr T v = au::get_value<T>(M{});   // compile-time value
+        const T rt = au::get_value<T>(M{});      // same call at run time
+        PutVal<T>::put(v);
+        if (!(v == rt)) printf(",\"rt_differs\":1");
+    }
+};
+template <typename T, typename M>
+void mag_type(const char *tname, bool first) {
+    constexpr bool rep = au::representable_in<T>(M{});
+    printf("%s\"%s\":{\"rep\":%d,\"val\":", first ? "" : ",", tname, (int)rep);
+    GetVal<T, M, rep>::put();
+    printf("}");
+}
+template <typename M>
+void reify_mag(const char *tag) {
+    printf("{\"ev\":\"mag\",\"tag\":\"%s\",\"tid\":\"%s\",\"mag\":", tag, typeid(M).name());
+    print_mag<M>();
+    printf(",\"is_integer\":%d,\"is_rational\":%d,\"num\":", (int)au::is_integer(M{}), (int)au::is_rational(M{}));
+    print_mag<decltype(au::numerator(M{}))>();
+    printf(",\"den\":");
+    print_mag<decltype(au::denominator(M{}))>();
+    printf(",\"intpart\":");
+    print_mag<decltype(au::integer_part(M{}))>();
+    printf(",\"types\":{");
+    mag_type<int8_t, M>("int8_t", true); mag_type<uint8_t, M>("uint8_t", false); mag_type<int16_t, M>("int16_t", false); mag_type<uint16_t, M>("uint16_t", false);
+    mag_type<int32_t, M>("int32_t", false); mag_type<uint32_t, M>("uint32_t", false); mag_type<int64_t, M>("int64_t", false); mag_type<uint64_t, M>("uint64_t", false);
+    mag_type<float, M>("float", false); mag_type<double, M>("double", false); mag_type<long double, M>("long double", false);
+    printf("}}\n");
+}
+template <typename A, typename B>
+void reify_mag_eq(const char *tag) {
+    printf("{\"ev\":\"mageq\",\"tag\":\"%s\",\"same_type\":%d,\"op_eq\":%d,\"op_ne\":%d}\n", tag, (int)std::is_same<A, B>::value, (int)(A{} == B{}), (int)(A{} != B{}));
+}
+
 }  // namespace vfy
 
 #endif
